@@ -1,25 +1,24 @@
 (* C15, converse direction: runs of fields, struct-likes, enums, functions, services, include / namespace, items, files. *)
 From PVIdl Require Import Comb Ast Parser Print Proofs.Total Proofs.RoundTok Proofs.RoundPath Proofs.RoundAnn Proofs.RoundTy
-  Proofs.RoundKit Proofs.RoundNum Proofs.RoundConst Proofs.RoundDecl Proofs.RoundField Proofs.RoundStruct Proofs.RoundFn Proofs.RoundFile
+  Proofs.RoundKit Proofs.Lex Proofs.RoundNum Proofs.RoundConst Proofs.RoundDecl Proofs.RoundField Proofs.RoundStruct Proofs.RoundFn Proofs.RoundFile
   Proofs.InvKit Proofs.InvTok Proofs.InvTy Proofs.InvNum Proofs.InvConst Proofs.InvDecl.
 From Coq Require Import ZifyN ZifyNat ZifyBool.
 From Coq Require String.
 Import String.StringSyntax.
 Open Scope nat_scope.
 
-(* the exclusion for a run of fields: per field (type heads, default value), and a default value that ends with a word or
-   number directly followed by the next field *)
+(* the exclusion for a run of fields: per field (type heads, default value) *)
 Fixpoint ok_fields (fs : list cfield) : bool :=
   match fs with
   | [] => true
-  | f :: fs' => ok_field f && (is_nil fs' || is_none (cf_default f) || negb (field_ends_word f)) && ok_fields fs'
+  | f :: fs' => ok_field f && ok_fields fs'
   end.
 
 Definition fel : Type := (blank * cfield)%type.
 Definition pr_fel (e : fel) (r : list byte) : list byte := pr_blank (fst e) (pr_field (snd e) r).
 Definition felQ (e : fel) (r : list byte) : Prop :=
   blank_ok (fst e) (pr_field (snd e) r) /\ (r <> [] -> ok_field (snd e) = true -> wf_field (snd e) = true) /\ noblank r /\
-  dhead (pr_field (snd e) r) /\ (field_ends_word (snd e) = true -> cf_default (snd e) = None -> nid r = true) /\
+  dhead (pr_field (snd e) r) /\ (field_ends_word (snd e) = true -> hd_is is_digit r = false) /\
   (noblank (pr_fel e r) -> fst e = []).
 Definition fhdnil (es : list fel) : Prop := match es with [] => True | e :: _ => fst e = [] end.
 
@@ -49,12 +48,10 @@ Proof.
     destruct (IH Hc Hh') as [E Wr]. pose proof (prl_fel_nonnil es k Hk) as Rn. unfold pr_fel at 1. cbn [fst snd pr_blank].
     rewrite E in *. split; [reflexivity|]. cbn [ok_fields wf_fields]. intros Hok. bsplit Hok.
     rewrite (Hw Rn ltac:(assumption)), (Wr ltac:(assumption)). rewrite andb_true_r. cbn [andb].
-    destruct es as [|e' es']; [reflexivity|]. cbn [map is_nil orb]. cbn [map is_nil orb] in W0.
+    destruct es as [|e' es']; [reflexivity|]. cbn [map is_nil orb].
     destruct (field_ends_word f) eqn:Ef; [|reflexivity]. exfalso.
-    destruct (cf_default f) eqn:Ed.
-    + cbn [is_none orb negb] in W0. discriminate.
-    + specialize (Hnid eq_refl eq_refl). destruct (Hd' ltac:(discriminate)) as [d0 [rest [Ed0 Hd0]]].
-      rewrite Ed0 in Hnid. unfold nid in Hnid. cbn [hd_sat] in Hnid. rewrite (digit_identch _ Hd0) in Hnid. discriminate.
+    specialize (Hnid eq_refl). destruct (Hd' ltac:(discriminate)) as [d0 [rest [Ed0 Hd0]]].
+    rewrite Ed0 in Hnid. cbn [hd_is] in Hnid. rewrite Hd0 in Hnid. discriminate.
 Qed.
 
 Section Items.
@@ -138,12 +135,13 @@ Lemma evalue_group_inv i i1 i2 o o2 : opt (p_evalue lf) i = POk i1 o -> opt (p_b
   exists v : option (blank * cint * blank), i = pr_evalue v i2 /\
     o = match v with Some (_, ci, _) => Some (erase_int ci) | None => None end /\
     (i2 <> [] -> match v with Some (b1, ci, b2) => wf_blank b1 && wf_int ci && wf_blank b2 | None => true end = true) /\
-    noblank i2 /\ (v = None -> i2 = i).
+    noblank i2 /\ (v = None -> i2 = i) /\
+    (match v with Some (_, ci, b2) => int_stops ci (pr_blank b2 i2) = true | None => True end).
 Proof.
   intros E1 E2 Hn. apply opt_inv in E1. destruct E1 as [[z [-> E1]]|[-> [-> _]]].
   - unfold p_evalue in E1. apply pbind_ok in E1. destruct E1 as [j1 [t1 [E E1]]]. apply pbind_ok in E1. destruct E1 as [j2 [u2 [E0 E1]]].
     apply tag_inv in E. destruct E as [-> _]. destruct (oblank_inv _ _ _ _ E0) as [b1 [-> [K1 _]]].
-    destruct (int_inv _ _ _ _ E1) as [ci [-> [<- [Wi _]]]]. destruct (oblank_inv _ _ _ _ E2) as [b2 [-> [K2 [N2 _]]]].
+    destruct (int_inv _ _ _ _ E1) as [ci [-> [<- [Wi [_ Si]]]]]. destruct (oblank_inv _ _ _ _ E2) as [b2 [-> [K2 [N2 _]]]].
     exists (Some (b1, ci, b2)). cbn [pr_evalue]. change sym_enum_eq with (txt "="). repeat split; auto; try discriminate.
     intros Hr. rewrite Wi, (blank_ok_nonnil _ _ K2 Hr). rewrite (blank_ok_nonnil _ _ K1); [reflexivity|].
     pose proof (len_const (CCInt ci) (pr_blank b2 i2) Wi) as L. cbn [pr_const] in L. intros E. rewrite E in L. cbn in L. lia.
@@ -152,11 +150,12 @@ Qed.
 
 Theorem enumval_inv i r a : p_enum_value lf i = POk r a ->
   exists e, i = pr_enumval e r /\ erase_enumval e = a /\ (r <> [] -> wf_enumval e = true) /\ noblank r /\
-            whead (pr_enumval e r) /\ (enumval_ends_word e = true -> ev_val e = None -> nid r = true).
+            whead (pr_enumval e r) /\
+            (enumval_ends_word e = true -> match ev_val e with Some (_, ci, _) => int_stops ci r = true | None => nid r = true end).
 Proof.
   rewrite p_enum_value_eq. intros H. binv H. inversion H; subst.
   destruct (ident_inv _ _ _ E) as [-> [Hname Hnid]]. destruct (oblank_inv _ _ _ _ E0) as [b1 [-> [K1 [N1 _]]]].
-  destruct (evalue_group_inv _ _ _ _ _ E1 E2 N1) as [v [-> [-> [Wv [Nv Hvn]]]]].
+  destruct (evalue_group_inv _ _ _ _ _ E1 E2 N1) as [v [-> [-> [Wv [Nv [Hvn Sv]]]]]].
   destruct (oanns_inv _ _ _ _ E3) as [an [-> [<- [Wa Han]]]]. destruct (osep_inv _ _ _ _ E4) as [sp [-> Hs]].
   destruct (oblank_inv _ _ _ _ E5) as [b4 [Eb4 [K4 [N4 Hnone]]]].
   (* the last blank slot is empty unless it follows an annotation list without separator *)
@@ -179,18 +178,19 @@ Proof.
   - match type of Hname with is_ident ?x = true => destruct x as [|h tl]; [discriminate|] end.
     cbn [is_ident] in Hname. apply andb_prop in Hname. destruct Hname as [Hh _].
     eexists h, _. split; [reflexivity|now apply identch_head].
-  - intros He Hv. subst v. bsplit He. apply is_nil_true in W. apply is_nil_true in W0. subst b1 b4.
-    destruct an; [discriminate|]. destruct sp; [|discriminate]. exact Hnid.
+  - intros He. destruct sp; [|discriminate]. destruct an; [discriminate|]. cbn [sep_none is_none andb pr_oanns pr_sep] in *.
+    apply andb_prop in He. destruct He as [He4 He]. apply is_nil_true in He4. subst b4. cbn [pr_blank] in *.
+    destruct v as [[[v1 ci] v2]|].
+    + apply is_nil_true in He. subst v2. exact Sv.
+    + apply is_nil_true in He. subst b1. exact Hnid.
 Qed.
 
-Fixpoint ok_enumvals (l : list cenumval) : bool :=
-  match l with
-  | [] => true
-  | e :: l' => (is_nil l' || is_none (ev_val e) || negb (enumval_ends_word e)) && ok_enumvals l'
-  end.
+(* nothing is excluded among enum values any more (kept as a name: the enum-level statements mention it) *)
+Definition ok_enumvals (l : list cenumval) : bool := true.
 
 Definition evQ (e : cenumval) (r : list byte) : Prop :=
-  (r <> [] -> wf_enumval e = true) /\ noblank r /\ whead (pr_enumval e r) /\ (enumval_ends_word e = true -> ev_val e = None -> nid r = true).
+  (r <> [] -> wf_enumval e = true) /\ noblank r /\ whead (pr_enumval e r) /\
+  (enumval_ends_word e = true -> match ev_val e with Some (_, ci, _) => int_stops ci r = true | None => nid r = true end).
 
 Lemma prl_enumvals l k : prl pr_enumval l k = pr_enumvals l k.
 Proof. induction l; cbn [prl fold_right pr_enumvals]; [reflexivity|]. fold (prl pr_enumval l k). now rewrite IHl. Qed.
@@ -202,15 +202,19 @@ Proof.
   destruct (pr_enumvals l k); [contradiction|]. intros E. rewrite E in L. cbn in L. lia.
 Qed.
 
-Lemma chain_enumvals l k : k <> [] -> chain pr_enumval evQ l k -> (ok_enumvals l = true -> wf_enumvals l = true) /\ (l <> [] -> noblank k).
+Lemma chain_enumvals l k0 : let k := x7d :: k0 in
+  chain pr_enumval evQ l k -> (ok_enumvals l = true -> wf_enumvals l = true) /\ (l <> [] -> noblank k).
 Proof.
-  intros Hk. induction l as [|e l IH]; cbn [chain ok_enumvals wf_enumvals]; intros Hc; [split; [reflexivity|contradiction]|].
+  intros k. assert (Hk : k <> []) by discriminate.
+  induction l as [|e l IH]; cbn [chain wf_enumvals]; intros Hc; [split; [reflexivity|contradiction]|].
   destruct Hc as [[Hw [Hn [_ Hnid]]] Hc]. destruct (IH Hc) as [Wr Hlast]. rewrite prl_enumvals in *. split.
-  - intros Hok. bsplit Hok. rewrite (Hw (pr_enumvals_nonnil l k Hk)), (Wr ltac:(assumption)). rewrite andb_true_r. cbn [andb].
-    destruct l as [|e' l']; [reflexivity|]. cbn [is_nil orb] in *. destruct (enumval_ends_word e) eqn:Ee; [|reflexivity]. exfalso.
-    destruct (ev_val e) eqn:Ev; [cbn in Hok; discriminate|]. specialize (Hnid eq_refl eq_refl).
-    cbn [chain] in Hc. destruct Hc as [[_ [_ [[b0 [rest [Eb Hb]]] _]]] _]. rewrite prl_enumvals in Eb. cbn [pr_enumvals] in Hnid.
-    rewrite Eb in Hnid. unfold nid in Hnid. cbn [hd_sat] in Hnid. rewrite Hb in Hnid. discriminate.
+  - intros _. specialize (Wr eq_refl). rewrite (Hw (pr_enumvals_nonnil l k Hk)), Wr. rewrite andb_true_r. cbn [andb].
+    destruct l as [|e' l']; [reflexivity|]. unfold enumval_glue. destruct (enumval_ends_word e) eqn:Ee; [|reflexivity]. cbn [negb orb].
+    specialize (Hnid eq_refl). destruct (ev_val e) as [[[v1 ci] v2]|].
+    + destruct (enumvals_after_name e' l' k0 Wr) as [Y [EY HY]]. fold k in EY. rewrite EY in Hnid.
+      now rewrite (int_stops_local ci (ev_cname e') Y HY) in Hnid.
+    + exfalso. cbn [chain] in Hc. destruct Hc as [[_ [_ [[b0 [rest [Eb Hb]]] _]]] _]. rewrite prl_enumvals in Eb. cbn [pr_enumvals] in Hnid.
+      rewrite Eb in Hnid. unfold nid in Hnid. cbn [hd_sat] in Hnid. rewrite Hb in Hnid. discriminate.
   - intros _. destruct l as [|e' l']; [exact Hn|]. apply Hlast. discriminate.
 Qed.
 
@@ -226,10 +230,15 @@ Proof.
   2:{ intros j0 r0 x0 H0. destruct (enumval_inv _ _ _ H0) as [e [-> [<- Hq]]]. exists e. repeat split; tauto. }
   destruct E5 as [vs [-> [<- [Hc _]]]]. apply tag_inv in E7. destruct E7 as [E7 _].
   assert (Hn6 : noblank i6).
-  { destruct vs as [|e vs]; [exact N0|]. destruct (chain_enumvals (e :: vs) i6) as [_ Hl]; [|exact Hc|apply Hl; discriminate].
-    subst i7. destruct (oblank_inv _ _ _ _ E6) as [bx [-> _]]. pose proof (len_blank bx (sym_enum_close ++ i8)) as L. intros Ex. rewrite Ex in L. cbn in L. lia. }
+  { destruct vs as [|e vs]; [exact N0|]. destruct (oblank_inv _ _ _ _ E6) as [bx [Ebx [Kbx [Nbx _]]]]. subst i7.
+    change (sym_enum_close ++ i8) with (x7d :: i8) in *.
+    (* the last value has read every blank: the chain ends where no blank begins *)
+    clear - Hc. revert Hc. generalize e. induction vs as [|e' vs IH]; intros e0 Hc.
+    - cbn [chain prl fold_right] in Hc. unfold evQ in Hc. tauto.
+    - cbn [chain] in Hc. destruct Hc as [_ Hc]. exact (IH e' Hc). }
   destruct (noblank_oblank _ _ _ _ Hn6 E6) as [<- _]. subst i7.
-  destruct (chain_enumvals vs (sym_enum_close ++ i8) ltac:(discriminate) Hc) as [Wvs _].
+  change (sym_enum_close ++ i8) with (x7d :: i8) in *.
+  destruct (chain_enumvals vs i8 Hc) as [Wvs _].
   destruct (oblank_inv _ _ _ _ E8) as [b3 [-> [K3 [N3 _]]]]. destruct (oanns_inv _ _ _ _ E9) as [an [-> [<- [Wa Han]]]].
   rewrite prl_enumvals in *.
   eexists (mkCEnum b1 _ b2 b0 vs b3 an). unfold pr_enum, erase_enum, wf_enum. cbn [ce_b1 ce_name ce_b2 ce_b0 ce_vals ce_b3 ce_anns].
@@ -503,7 +512,13 @@ Definition ahead (x : list byte) : Prop := exists b0 rest, x = b0 :: rest /\ is_
 
 Definition itemP (it : citem) (r : list byte) : Prop :=
   (ok_item it = true -> wf_item (is_nil r) it = true) /\ (item_open it = true -> noblank r) /\
-  (item_ends_word it = true -> is_const it = false -> nid r = true) /\ ahead (pr_item it r).
+  (item_ends_word it = true -> match it with CIConst c => cont_ok (ck_val c) r = true | _ => nid r = true end) /\ ahead (pr_item it r).
+
+Lemma tail_bare_pr t r : tail_bare t = true -> pr_tail t r = r.
+Proof.
+  destruct t as [bl a sp]. unfold tail_bare, pr_tail. cbn [t_b t_anns t_sep]. intros H. bsplit H.
+  destruct bl; [|discriminate]. destruct a; [discriminate|]. destruct sp; [|discriminate]. reflexivity.
+Qed.
 
 Lemma item_keyword_inv i r kw : p_item_keyword i = POk r kw -> r = i.
 Proof. unfold p_item_keyword, peek. destruct (recognize _ i); intros H; inversion H; reflexivity. Qed.
@@ -550,9 +565,10 @@ Proof.
     exists (CITypedef c). unfold itemP. cbn [pr_item erase_item ok_item wf_item item_open item_ends_word is_const]. repeat split; auto.
     unfold pr_typedef. apply ahead_txt; [reflexivity|discriminate]. }
   destruct (bytes_eqb kw arm_const).
-  { apply pmap_ok in H. destruct H as [n [H ->]]. destruct (constant_inv _ _ _ _ _ H) as [c [-> [<- [Wn Hop]]]].
+  { apply pmap_ok in H. destruct H as [n [H ->]]. destruct (constant_inv _ _ _ _ _ H) as [c [-> [<- [Wn [Hop Cv]]]]].
     exists (CIConst c). unfold itemP. cbn [pr_item erase_item ok_item wf_item item_open item_ends_word is_const]. repeat split; auto; try discriminate.
     - intros Hok. apply andb_prop in Hok. destruct Hok. auto.
+    - unfold constant_ends_word. intros He. apply andb_prop in He. destruct He as [_ Hb]. now rewrite (tail_bare_pr _ r Hb) in Cv.
     - unfold pr_constant. apply ahead_txt; [reflexivity|discriminate]. }
   destruct (bytes_eqb kw arm_enum).
   { apply pmap_ok in H. destruct H as [n [H ->]]. destruct (enum_inv _ _ _ H) as [c [-> [<- [Wn Hop]]]].
